@@ -68,7 +68,7 @@ def price_path(rng, T, kind="walk"):
 GEN_KEYS = ("nops", "capital", "p_defer", "p_redundant", "allow_illformed", "fund_subs", "p_unsettled", "p_flow", "p_custom", "same_sec", "leverage")
 
 
-def make_C(rng, tree=None, T=4, comm=None, spread=None, integer=True, mults=(1, 1, 1, 2, 5), late=False, D=50000, crash=False, bidoffer=None):
+def make_C(rng, tree=None, T=4, comm=None, spread=None, integer=True, mults=(1, 1, 1, 2, 5), late=False, D=50000, crash=False, bidoffer=None, delist=False):
     tree = tree or rng.choice(list(TREES))
     kinds, par, names = TREES[tree]
     N = len(kinds)
@@ -89,6 +89,11 @@ def make_C(rng, tree=None, T=4, comm=None, spread=None, integer=True, mults=(1, 
             if crash and rng.random() < 0.5:
                 k = rng.randint(1, T - 1)
                 path = path[:k] + [max(1, path[k] // rng.choice([4, 8, 10]))] + path[k + 1 :]
+            if delist and rng.random() < 0.5:
+                # a delisting: the price prints 0 (maybe for several dates) and/or goes missing
+                k = rng.randint(1, T - 1)
+                tail = rng.choice([[None], [0], [0, None], [0, 0, None], [0, 0]])
+                path = (path[:k] + tail + [tail[-1]] * T)[:T]
             sp = [rng.choice([0, spread]) for _ in range(T)] if spread else [0] * T
             # domain of C05: trading costs per unit stay well below the unit price
             sp = [s_ if (p_ is not None and 4 * s_ <= p_) else 0 for s_, p_ in zip(sp, path)]
